@@ -136,6 +136,9 @@ def run(ctx):
         return isinstance(e, ast.Attribute) and mangle(R.cls.name, e.attr) == R.buffer_attr
 
     def is_consume(st):
+        if isinstance(st, ast.Delete):  # del buffer[:n]
+            return any(isinstance(t, ast.Subscript) and is_buf(t.value) and isinstance(t.slice, ast.Slice) and t.slice.lower is None
+                       and t.slice.upper is not None for t in st.targets)
         return isinstance(st, ast.Assign) and any(is_buf(t) for t in st.targets) and any(is_buf(x) for x in ast.walk(st.value))
 
     # the variable the protocol patterns are applied to
